@@ -103,7 +103,7 @@ def cmd_check(a):
         for gi, w in enumerate(ws):
             out = os.path.join(tmp, "w%d.json" % w)
             args = {"prop": prop, "fw": v[0], "variant": "%s-nvx%s" % v, "seed": seed, "windex": gi, "nworkers": len(ws),
-                    "max_runs": max(1, max_runs // nworkers), "budget_s": budget, "out": out, "known": KNOWN,
+                    "max_runs": max(1, max_runs // nworkers), "budget_s": budget, "tier": tier, "out": out, "known": KNOWN,
                     "shrink_s": 25.0 if tier == "quick" else 60.0}
             procs.append((w, v, out, spawn_worker(args, v[1], errpath=os.path.join(tmp, "w%d.err" % w))))
     results = []
@@ -237,8 +237,13 @@ def cmd_check(a):
         print("HARNESS-ERROR: violation %s [%s] did not reproduce identically in a fresh interpreter (%s): %s" % (
             v["clause"], v["sig"], path, json.dumps(rr)[:600]))
         rc = rc or 2
-    for e in harness_errors[:5]:
-        print("HARNESS-ERROR: %s: %s" % (e["variant"], e["error"][-1500:]))
+    for n, e in enumerate(harness_errors[:5]):
+        hp = os.path.join(HERE, "replays", "HARNESS-%s-%d.json" % (prop, n))
+        with open(hp, "w") as f:
+            json.dump({"property": prop, "clause": "harness", "sig": "harness", "framework": e["variant"].split("-")[0],
+                       "nvx": e["variant"].rsplit("nvx", 1)[1], "mode": e.get("mode"), "choices": e.get("choices", []),
+                       "digest": "", "error": e["error"]}, f)
+        print("HARNESS-ERROR: %s (repro %s): %s" % (e["variant"], hp, e["error"][-1500:]))
         rc = rc or 2
     for w, v, wrc, errtxt in dead:
         print("HARNESS-ERROR: worker %d (%s-nvx%s) died rc=%s\n%s" % (w, v[0], v[1], wrc, errtxt[-1500:]))
